@@ -129,6 +129,22 @@ PROPS = {
                    ' is evaluated by the bounded stand-in'],
         bounded=[CB('poller-contracts', 'contracts/poller.py', 'gens_poller', budget=120)],
     ),
+    'C12': dict(
+        contract_files=['contracts/client.py'],
+        level='bounded',
+        trusted_base=COMMON_TRUSTED,
+        uncovered=['end-to-end mirroring of the node cache over a connection (reader thread, reconnect, describe changes): whole-history'
+                   ' property over two processes / threads - no sequential contract; only the callback dispatch is evaluated (bounded)'],
+        bounded=[CB('client-contracts', 'contracts/client.py', 'gens_client')],
+    ),
+    'C16': dict(
+        contract_files=['contracts/comm.py'],
+        level='bounded',
+        trusted_base=COMMON_TRUSTED,
+        uncovered=['atomic request/reply pairing under the communicate lock, discarding stale data, reconnection (StringIO / BytesIO.communicate,'
+                   ' IOBase.check_connection): concurrency and time - no sequential contract in reach; line / block assembly evaluated (bounded)'],
+        bounded=[CB('comm-contracts', 'contracts/comm.py', 'gens_comm', budget=120)],
+    ),
     'C07': dict(
         contract_files=['contracts/protocol.py'],
         level='proof',
